@@ -231,5 +231,17 @@ func (g *VerifC18Rig) VerifC18Stores() map[int]_interface.LimitStore {
 	return res
 }
 
+// VerifC18Locks is the key set of upstreamLock.
+func (g *VerifC18Rig) VerifC18Locks() []string {
+	var res []string
+	for u, m := range g.r.upstreamLock {
+		if m != nil {
+			res = append(res, u)
+		}
+	}
+	sort.Strings(res)
+	return res
+}
+
 // VerifC18TimeoutMs is ClientHeartBeatTimeout as compiled.
 func VerifC18TimeoutMs() int64 { return int64(ClientHeartBeatTimeout / time.Millisecond) }
